@@ -13,6 +13,7 @@
 EXTENDS YaeApi, YaeIO
 
 VARIABLE st
+Map1A(L, Mk(_)) == [i \in 1..Len(L) |-> Mk(L[i])]
 Prod2(L1, L2, Mk(_, _)) ==
   [k \in 1..(Len(L1) * Len(L2)) |-> Mk(L1[((k - 1) \div Len(L2)) + 1], L2[((k - 1) % Len(L2)) + 1])]
 Prod3(L1, L2, L3, Mk(_, _, _)) ==
@@ -72,6 +73,17 @@ PairHists ==
         LAMBDA t, v, s : <<Compile(1, s, t), Invoke(1, v)>>)
     \o Prod3(Prod2(<<"M", "N">>, Kinds, LAMBDA c, k : ObjIdx(c, k)), Prod2(<<"M", "N", "A">>, Kinds, LAMBDA c, k : ObjIdx(c, k)), <<SRC_n_plus_1>>,
               LAMBDA t, v, s : <<Compile(1, s, t), Invoke(1, v)>>)
+\* short sources whose nesting is deep: compile and evaluation time must stay polynomial (watchdog)
+RECURSIVE RepT(_, _)
+RepT(x, n) == IF n = 0 THEN <<>> ELSE x \o RepT(x, n - 1)
+DeepSrcs == <<RepT(<<91, 49, 58>>, 28) \o <<49>> \o RepT(<<93>>, 28),                  \* [1:[1:[1: ... 1]]]   28 deep, 113 characters
+              RepT(<<91>>, 28) \o <<49>> \o RepT(<<93, 58, 49>>, 27) \o <<93>>,        \* [[[1]:1]:1] ...      28 deep
+              RepT(<<91>>, 40) \o <<49>> \o RepT(<<93>>, 40), RepT(<<40>>, 60) \o <<49>> \o RepT(<<41>>, 60),
+              RepT(<<123, 97, 58>>, 30) \o <<49>> \o RepT(<<125>>, 30),
+              RepT(<<110, 32, 62, 32, 48, 32, 63, 32>>, 30) \o <<49>> \o RepT(<<32, 58, 32, 50>>, 30),     \* n > 0 ? n > 0 ? ... 1 : 2 : 2
+              <<110>> \o RepT(<<32, 43, 32, 110>>, 50), RepT(<<45>>, 40) \o <<110>>, RepT(<<33>>, 61) \o <<40, 110, 32, 62, 32, 48, 41>>>>
+DeepHists == Map1A(DeepSrcs, LAMBDA s : <<EvalS(s, ObjIdx("A", "struct"))>>)
+               \o Map1A(DeepSrcs, LAMBDA s : <<Compile(1, s, ObjIdx("A", "raw")), Invoke(1, ObjIdx("A", "raw"))>>)
 TotalSrcs == <<SRC_n_plus_1, SRC_syntax_err, SRC_type_err, SRC_lex_err, SRC_xs_n, SRC_deep_idx, SRC_mod0, SRC_key_zz, SRC_bad_regex,
                SRC_if_guard, SRC_union_xs, SRC_print_n, SRC_string_m, SRC_t1_t2, SRC_nested, SRC_m_b>>
 TotalHists ==
@@ -79,6 +91,7 @@ TotalHists ==
     \o Prod2(TotalSrcs, <<ObjIdx("A", "struct"), ObjIdx("A", "map")>>, LAMBDA s, v : <<DebugS(s, v)>>)
     \o Prod3(TotalSrcs, <<ObjIdx("A", "raw"), ObjIdx("A", "struct")>>, <<ObjIdx("A", "raw"), ObjIdx("A", "map"), ObjIdx("B", "struct")>>,
              LAMBDA s, t, v : <<Compile(1, s, t), Invoke(1, v)>>)
+
 
 \* "hosts": unusual host values (catalogued by name in the harness) through Eval / Compile / Debug.
 \* What the API must return for each: a value or an error -- and which.
@@ -90,7 +103,9 @@ HostExpect(name, src) ==      \* for the source "1" (needs no variable)
 HostHists == Prod2(HostNames, <<SRC_one, SRC_syntax_err>>, LAMBDA hn, s : <<[op |-> "hosteval", src |-> s, host |-> hn]>>)
 
 \* "hist": BFS over actions
-HSrcs == <<SRC_n_plus_1, SRC_string_m, SRC_t1_t2, SRC_xs_n>>
+HSrcs == IF P_SIZE >= 4 THEN <<SRC_n_plus_1, SRC_map_lit, SRC_t1_t2, SRC_xs_n, SRC_union_many, SRC_obj_lit>>
+         ELSE <<SRC_map_lit, SRC_t1_t2, SRC_union_many, SRC_xs_n>>
+NEng == IF P_SIZE >= 4 THEN 2 ELSE 1
 HTenvs == <<ObjIdx("A", "raw"), ObjIdx("A", "struct")>>
 HVenvs == <<ObjIdx("A", "raw"), ObjIdx("B", "raw"), ObjIdx("A", "map"), ObjIdx("D", "raw")>>
 NCalls(h) == Len(SelectSeq(h, LAMBDA s : s.op = "compile"))
@@ -98,13 +113,14 @@ NCalls(h) == Len(SelectSeq(h, LAMBDA s : s.op = "compile"))
 Init == IF P_MODE = "pools" THEN st = [pools |-> TRUE]
         ELSE IF P_MODE = "hist" THEN st = [h |-> <<>>]
         ELSE st \in {[seed |-> i] : i \in 1..16}
-Fixed == IF P_MODE = "pairs" THEN PairHists ELSE IF P_MODE = "total" THEN TotalHists ELSE IF P_MODE = "hosts" THEN HostHists ELSE <<>>
+Fixed == IF P_MODE = "pairs" THEN PairHists ELSE IF P_MODE = "total" THEN TotalHists ELSE IF P_MODE = "hosts" THEN HostHists
+         ELSE IF P_MODE = "deep" THEN DeepHists ELSE <<>>
 NF == Len(Fixed)
 Next ==
   IF P_MODE = "pools" THEN FALSE
   ELSE IF P_MODE = "hist" THEN
     /\ "h" \in DOMAIN st /\ Len(st.h) < P_SIZE
-    /\ \/ \E e \in 1..2, i \in 1..Len(HSrcs), t \in 1..Len(HTenvs) : st' = [h |-> Append(st.h, Compile(e, HSrcs[i], HTenvs[t]))]
+    /\ \/ \E e \in 1..NEng, i \in 1..Len(HSrcs), t \in 1..Len(HTenvs) : st' = [h |-> Append(st.h, Compile(e, HSrcs[i], HTenvs[t]))]
        \/ \E c \in 1..NCalls(st.h), v \in 1..Len(HVenvs) : st' = [h |-> Append(st.h, Invoke(c, HVenvs[v]))]
   ELSE /\ "seed" \in DOMAIN st
        /\ \E j \in (((st.seed - 1) * NF) \div 16 + 1)..((st.seed * NF) \div 16) : st' = [h |-> Fixed[j]]
